@@ -182,6 +182,67 @@ for _op in OPS:
                            ("result is in the type's range", and_(e.result >= lo_hi(e.ty)[0], e.result < lo_hi(e.ty)[1]))]))
 
 
+# ---- float binary operators: concrete operand grid, run natively (IEEE-754 arithmetic is not modelled symbolically) ----
+# + - * / on f64 are the host's binary64 operations with IEEE results for a zero divisor; f32 results are rounded to binary32.
+def _float_cases():
+    from contracts import wasmspec as W
+    out = []
+    for n in (64, 32):
+        vals = [x for x in W.fvals(n) if x == x][:24] + [float("inf"), float("-inf"), float("nan"), 0.0, -0.0]
+        pairs = [(a, b) for a in (0.0, -0.0, 1.0, -1.5, float("inf"), float("-inf"), float("nan"), 16777216.0, 3.0e38 if n == 32 else 1e308, 0.1 if n == 64 else W.f32r(0.1))
+                 for b in vals]
+        for op, wop in (("+", "add"), ("-", "sub"), ("*", "mul"), ("/", "div")):
+            out.append({"op": op, "wop": wop, "n": n, "pairs": pairs})
+    return out
+
+
+def _float_binop_call(fn, env, args, kwargs):
+    from contracts import wasmspec as W
+    ir = _ir()
+    ty = ir.f64 if env.n == 64 else ir.f32
+    text, name = emitted_binop(env.op, ty)
+    bad = []
+    for a, b in env.pairs:
+        try:
+            got = _run_text(text, {"a": a, "b": b}, False)[name]
+        except Exception as ex:
+            got = "raised %s" % type(ex).__name__
+        want = W.fbin(env.wop, env.n, a, b)
+        if not (isinstance(got, float) and W.same(got, want)):
+            bad.append((a, b, want, got))
+    return bad
+
+
+CONTRACTS.append(Contract(
+    M + ":IrToPythonCompiler.gen_binop", "C24", label="emitted code of gen_binop on f32 / f64, concrete operand grid (native)", grid=_float_cases(),
+    make=lambda c, g: {"args": [], "env": {}, "inputs": {}}, call=_float_binop_call, sample_inputs=lambda g, rnd: [{}], replay_args=lambda g, v: {"args": [], "env": {}},
+    ensures=lambda e: [("every pair of the grid gives the IEEE-754 result in the type (zero divisors, NaN, overflow to infinity, binary32 rounding)", e.result == [])]))
+
+
+def _float_cast_call(fn, env, args, kwargs):
+    from contracts import wasmspec as W
+    ir = _ir()
+    src = {"i32": ir.i32, "u32": ir.u32, "i64": ir.i64, "u64": ir.u64, "f64": ir.f64}[env.src]
+    text, name = emitted_cast(src, ir.f32)
+    bad = []
+    for a in env.vals:
+        got = _run_text(text, {"a": a}, False)[name]
+        want = W.f32r(a) if isinstance(a, float) else W.convert(32, 64, True, a)
+        if not (isinstance(got, float) and W.same(got, want)):
+            bad.append((a, want, got))
+    return bad
+
+
+_I2F = [0, 1, -1, 16777216, 16777217, 16777219, -16777217, 2147483647, -2147483648, 4294967295, (1 << 53) + 1, (1 << 62) + (1 << 38), (1 << 62) + (1 << 38) + 1,
+        9223372036854775807, -9223372036854775808, 18446744073709551615, 0x7FFFFF4000000001, 0x7FFFFF4000000000, 33554434, 33554438]
+CONTRACTS.append(Contract(
+    M + ":IrToPythonCompiler.gen_cast", "C24", label="emitted code of gen_cast(-> f32), concrete operand grid (native)",
+    grid=[{"src": t, "vals": [v for v in _I2F if (-(1 << (int(t[1:]) - 1)) <= v < (1 << (int(t[1:]) - 1))) or (t[0] == "u" and 0 <= v < (1 << int(t[1:])))]} for t in ("i32", "u32", "i64", "u64")]
+         + [{"src": "f64", "vals": [0.0, -0.0, 1e300, -1e300, 0.1, 16777217.0, 3.4028235677973366e38, 3.4028234663852886e38, 1e-46, float("inf"), float("nan"), 4294967295.0]}],
+    make=lambda c, g: {"args": [], "env": {}, "inputs": {}}, call=_float_cast_call, sample_inputs=lambda g, rnd: [{}], replay_args=lambda g, v: {"args": [], "env": {}},
+    ensures=lambda e: [("the value is rounded once to binary32 (ties to even; integers beyond 2^53 are not rounded twice)", e.result == [])]))
+
+
 # ---- unary operators ---------------------------------------------------------------------------------------
 def emitted_unop(op, ty):
     from ppci.lang.python.ir2py import IrToPythonCompiler
